@@ -71,6 +71,11 @@ type AssertionModel struct {
 	HasProxy      bool       `json:"hasProxy"`
 	ProxyCount    Opt        `json:"proxyCount"`
 	ProxyAudience []string   `json:"proxyAudience"`
+	// ForeignCond: look-alike elements of a FOREIGN namespace inside Conditions (bit 1: an x:Audience first in the
+	// ProxyRestriction, 2: an x:Audience first in the first AudienceRestriction, 4: an x:OneTimeUse, 8: an
+	// x:ProxyRestriction Count="9", 16: an x:AudienceRestriction naming urn:foreign). They are not SAML conditions:
+	// a message carrying them is refused or they are ignored — they never show in what is reported.
+	ForeignCond int `json:"foreignCond,omitempty"`
 
 	HasAttrStmt bool        `json:"hasAttrStmt"`
 	Attrs       []AttrModel `json:"attrs"`
@@ -220,9 +225,30 @@ func BuildAssertion(a *AssertionModel, ns NSStyle) *etree.Element {
 		el.AddChild(c)
 		setOpt(c, "NotBefore", a.NotBefore)
 		setOpt(c, "NotOnOrAfter", a.NotOnOrAfter)
-		for _, ar := range a.Audiences {
+		foreign := func(tag, text string) *etree.Element {
+			e := mk("fx", tag)
+			declNS(e, "fx", "urn:example:foreign:conditions")
+			return textEl(e, text)
+		}
+		if a.ForeignCond&16 != 0 {
+			r := foreign("AudienceRestriction", "")
+			r.AddChild(textEl(mk("fx", "Audience"), "urn:foreign"))
+			c.AddChild(r)
+		}
+		if a.ForeignCond&4 != 0 {
+			c.AddChild(foreign("OneTimeUse", ""))
+		}
+		if a.ForeignCond&8 != 0 {
+			p := foreign("ProxyRestriction", "")
+			p.CreateAttr("Count", "9")
+			c.AddChild(p)
+		}
+		for i, ar := range a.Audiences {
 			r := ns.aEl("AudienceRestriction", true)
 			c.AddChild(r)
+			if i == 0 && a.ForeignCond&2 != 0 {
+				r.AddChild(foreign("Audience", "urn:foreign"))
+			}
 			for _, v := range ar {
 				r.AddChild(textEl(ns.aEl("Audience", true), v))
 			}
@@ -234,6 +260,9 @@ func BuildAssertion(a *AssertionModel, ns NSStyle) *etree.Element {
 			p := ns.aEl("ProxyRestriction", true)
 			c.AddChild(p)
 			setOpt(p, "Count", a.ProxyCount)
+			if a.ForeignCond&1 != 0 {
+				p.AddChild(foreign("Audience", "urn:foreign"))
+			}
 			for _, v := range a.ProxyAudience {
 				p.AddChild(textEl(ns.aEl("Audience", true), v))
 			}
